@@ -15,7 +15,7 @@ from common import s2t, t2s
 OPS = {
     "decode.tokbatch": {}, "decode.csibatch": {}, "decode.splitlines": {},
     "decode.batch": {}, "decode.lines": {"res": True}, "decode.seq": {},
-    "decode.roundtrip": {"res": True}, "proxy.run": {}, "proxy.facts": {},
+    "decode.roundtrip": {"res": True}, "proxy.run": {}, "proxy.live": {}, "proxy.facts": {},
 }
 
 N_ATTR = 13
@@ -261,6 +261,18 @@ def generate(rng, tier):
         cases.append(("decode.roundtrip", [0, rand_runs(rng)]))
     for _ in range(500 * k):
         cases.append(("decode.roundtrip", [1, rand_runs(rng, clean=True)]))
+    # a segment with an embedded newline printed with crop=False: the style stays open across the line
+    # break and the decoder's state carries it (mode 2: one list of runs, texts may contain "\n")
+    for _ in range(300 * k):
+        runs = []
+        for _ in range(rng.randint(1, 4)):
+            txt = rand_text(rng, CLEAN, 4)
+            if rng.random() < 0.6:
+                txt += "\n" + rand_text(rng, CLEAN, 3)
+            if rng.random() < 0.2:
+                txt += "\n"
+            runs.append([s2t(txt), [] if rng.random() < 0.2 else [rand_style(rng)]])
+        cases.append(("decode.roundtrip", [2, [runs]]))
     # ---- FileProxy histories
     short = ["ab\ncd", "\x1b[1mx\x1b[0m\n", "a\x1b[31mb\nc\x1b[0m\n", "\n\n\n", "x\n\ny", "[b]x[/b]", "[/]\n[/]", ":smile:",
              "\x1b]8;id=1;http://a\x1b\\L\x1b]8;;\x1b\\\n", "\x1b[38;2;1;2;3mq\nr", "\x1b[²m\nz\n", "a\rb\nc"]
@@ -275,6 +287,36 @@ def generate(rng, tier):
         for _ in range(10):
             i, j = sorted((rng.randint(0, len(s)), rng.randint(0, len(s))))
             cases.append(("proxy.run", [0, [[0, s2t(s[:i])], [0, s2t(s[i:j])], [0, s2t(s[j:])]]]))
+    # a partial line pending, then ONE write carrying several newlines (each later line must not get the
+    # stale prefix again), with and without flushes around it
+    for _ in range(150 * k):
+        pre = rand_text(rng, CLEAN, 4) or "p"
+        if rng.random() < 0.3:
+            pre = "\x1b[1m" + pre
+        n = rng.randint(2, 5)
+        multi = "".join(rand_text(rng, CLEAN, 3) + "\n" for _ in range(n)) + rng.choice(["", "tail"])
+        hist = [[0, s2t(pre)]]
+        if rng.random() < 0.2:
+            hist.append([0, s2t(rand_text(rng, CLEAN, 2))])
+        hist.append([0, s2t(multi)])
+        if rng.random() < 0.5:
+            hist.append([0, s2t(rand_text(rng, CLEAN, 3) + "\n\n")])
+        if rng.random() < 0.4:
+            hist.append([1])
+        cases.append(("proxy.run", [1, hist]))
+    # ---- the two proxies a real Live installs on sys.stdout / sys.stderr
+    for _ in range(250 * k):
+        hist = []
+        for _ in range(rng.randint(1, 8)):
+            which = rng.randint(0, 1)
+            if rng.random() < 0.2:
+                hist.append([1, which])
+            else:
+                r = rng.random()
+                txt = rand_stream_line(rng) if r < 0.5 else rand_text(rng, CLEAN, 5)
+                txt += rng.choice(["\n", "\n", "", "\nx\ny\n", "\n\n"])
+                hist.append([0, which, s2t(txt)])
+        cases.append(("proxy.live", hist))
     for _ in range(900 * k):
         stream = "".join(rand_stream_line(rng) + rng.choice(["\n", "\n", "\n", "", "\n\n", "\r\n"])
                          for _ in range(rng.randint(0, 6)))
@@ -312,6 +354,8 @@ def model_case(op, arg):
         return op, arg[1]
     if op == "proxy.run":
         return op, [d8_fixed(), arg[1]]
+    if op == "proxy.live":
+        return op, [d8_fixed(), arg]
     return op, arg
 
 
@@ -440,7 +484,7 @@ def impl(op, arg):
         from rich.segment import Segment
         from rich.text import Text
         console = _console()
-        if mode == 0:
+        if mode in (0, 2):
             segs = []
             for line in lines:
                 for txt, sty in line:
@@ -459,6 +503,8 @@ def impl(op, arg):
         return [s2t(enc), _outcome(lambda: [_utext(t) for t in AnsiDecoder().decode(enc)])]
     if op == "proxy.run":
         return _proxy_run(arg[0], arg[1])
+    if op == "proxy.live":
+        return _proxy_live(arg)
     if op == "proxy.facts":
         return _facts()
     raise KeyError(op)
@@ -517,6 +563,87 @@ def _proxy_run(clean, hist):
     return res
 
 
+def _log_outs(entries):
+    from rich.text import Text
+    from rich.control import Control
+    outs = []
+    for objects, kw in entries:
+        if len(objects) == 1 and isinstance(objects[0], Control):
+            continue                      # Live's own refresh
+        kws = [(-1 if k not in kw else (1 if kw[k] else 0)) for k in ("markup", "emoji", "highlight")]
+        if len(objects) == 1 and isinstance(objects[0], Text):
+            outs.append([0, 0, _split_text(_utext(objects[0])), kws])
+        elif len(objects) == 1 and isinstance(objects[0], str):
+            outs.append([0, 1, s2t(objects[0]), kws])
+        else:
+            outs.append([0, 2, [], kws])
+    return outs
+
+
+def _proxy_live(hist):
+    """a real Live on a terminal console: sys.stdout / sys.stderr must be FileProxy objects on that
+    console; the history is played through them"""
+    import io, sys
+    from rich.console import Console
+    from rich.file_proxy import FileProxy
+    from rich.live import Live
+    from rich.text import Text
+    log = []
+
+    class Rec(Console):
+        def print(self, *objects, **kw):
+            log.append((objects, kw))
+            super().print(*objects, **kw)
+
+    console = Rec(color_system="truecolor", force_terminal=True, file=io.StringIO(), legacy_windows=False,
+                  _environ={}, width=100000)
+    saved = sys.stdout, sys.stderr
+    fake_out, fake_err = io.StringIO(), io.StringIO()
+    sys.stdout, sys.stderr = fake_out, fake_err
+    per_op = []
+    pend = [[], []]
+    problems = []
+    try:
+        live = Live(Text("LIVE"), console=console, auto_refresh=False, redirect_stdout=True, redirect_stderr=True)
+        live.start()
+        try:
+            streams = [sys.stdout, sys.stderr]
+            for k, f in enumerate(streams):
+                if not isinstance(f, FileProxy):
+                    problems.append("stream %d is not redirected" % k)
+            for o in hist:
+                n0 = len(log)
+                exc = None
+                try:
+                    f = streams[o[1]]
+                    if o[0] == 0:
+                        f.write(t2s(o[2]))
+                    else:
+                        f.flush()
+                except Exception as e:
+                    exc = type(e).__name__
+                outs = _log_outs(log[n0:])
+                if exc is not None:
+                    outs.append([1, 1, common.DOC_ERRORS[exc]] if exc in common.DOC_ERRORS
+                                else [1, 0, common.CRASH_ERRORS.get(exc, 99)])
+                per_op.append(outs)
+            for k, f in enumerate(streams):
+                if isinstance(f, FileProxy):
+                    pend[k] = s2t("".join(f._FileProxy__buffer))
+        finally:
+            live.stop()
+        if sys.stdout is not fake_out or sys.stderr is not fake_err:
+            problems.append("streams not restored by stop()")
+    finally:
+        sys.stdout, sys.stderr = saved
+    if fake_out.getvalue() or fake_err.getvalue():
+        problems.append("something reached the proxied files")
+    res = [per_op, pend[0], pend[1]]
+    if problems:
+        res.append([s2t(p) for p in problems])
+    return res
+
+
 def _facts():
     """the call-site facts, observed behaviourally (the model answers with the translator's)"""
     import io
@@ -550,7 +677,29 @@ def spec_cases(op, arg, out):
         enc, dec = out[1]
         if dec[0] != 0:
             return [("spec.decode.no_crash", [2])]
-        return [("spec.decode.roundtrip_ok", [arg[1], dec[1]])]
+        want = arg[1]
+        if arg[0] == 2:
+            want = [[]]
+            for txt, sty in arg[1][0]:
+                parts = t2s(txt).split("\n")
+                for i, part in enumerate(parts):
+                    if i:
+                        want.append([])
+                    want[-1].append([s2t(part), sty])
+            # the final "\n" segment ends the last line
+        return [("spec.decode.roundtrip_ok", [want, dec[1]])]
+    if op == "proxy.live":
+        if len(out) != 3:
+            return [("spec.decode.no_crash", [2])]
+        res = []
+        for k in (0, 1):
+            h, outs = [], []
+            for o, oo in zip(arg, out[0]):
+                if o[1] == k:
+                    h.append([0, o[2]] if o[0] == 0 else [1])
+                    outs += [x if not (x[0] == 0 and x[1] == 2) else [0, 1, [], x[3]] for x in oo]
+            res.append(("spec.proxy.ok", [h, outs, out[1 + k]]))
+        return res
     if op == "proxy.run":
         if len(out) != 2:
             return [("spec.decode.no_crash", [2])]
